@@ -8695,3 +8695,587 @@ func ruleNoUncheckedAssertionsInFrontEnd(c *core.Ctx) {
 		})
 	}
 }
+
+// A7 / A8 (C04): the schema text is the compact JSON of the definitions, with nothing added and nothing wire-relevant
+// taken away. A7: GetProtocolSchemaString turns the schema into text with json.Marshal only — an Encoder appends a
+// newline (which each back end then embeds differently), MarshalIndent adds layout. A8: where GetProtocolSchema (or a
+// helper it calls) clears a field of a definition it is about to list, the field is not one of the wire-relevant
+// fields of rule A2 (computed fields and comments may go; an enum's base type may not).
+func ruleSchemaTextExact(c *core.Ctx) {
+	const rule7, rule8 = "A7", "A8"
+	c.Rule(rule7, "dsl.GetProtocolSchemaString: the only encoding/json call is json.Marshal", 1)
+	c.Rule(rule8, "dsl.GetProtocolSchema and its helpers: no assignment of nil / a zero value to a wire-relevant field (rule A2's table) of a definition", 1)
+	p := c.Pkg("pkg/dsl")
+	_, gss, _ := c.Func("pkg/dsl", "GetProtocolSchemaString")
+	_, gps, _ := c.Func("pkg/dsl", "GetProtocolSchema")
+	if p == nil || gss == nil || gps == nil {
+		c.Undecided(rule7, "anchor/GetProtocolSchemaString", 0, "anchor not found")
+		c.Undecided(rule8, "anchor/GetProtocolSchema", 0, "anchor not found")
+		return
+	}
+	info := p.TypesInfo
+	n := 0
+	for _, fd := range declsCalledInPkg(c, gss, 1) {
+		if fd == gps {
+			continue
+		}
+		ast.Inspect(fd.Body, func(nn ast.Node) bool {
+			ce, ok := nn.(*ast.CallExpr)
+			if !ok {
+				return true
+			}
+			f := core.Callee(info, ce)
+			if f == nil || f.Pkg() == nil || f.Pkg().Path() != "encoding/json" {
+				return true
+			}
+			n++
+			c.Check(core.FullName(f) == "encoding/json.Marshal", rule7, fmt.Sprintf("%s/%s#%d", c.FuncName(fd), f.Name(), n), ce.Pos(), "json.Marshal",
+				"the schema text is produced with "+core.FullName(f)+": an Encoder appends a newline and MarshalIndent adds layout — the literal embedded in C++, Python and MATLAB is no longer the same text")
+			return true
+		})
+	}
+	if n == 0 {
+		c.Undecided(rule7, "GetProtocolSchemaString/encoding", gss.Pos(), "no encoding/json call found")
+	}
+	m := 0
+	for _, fd := range declsCalledInPkg(c, gps, 2) {
+		ast.Inspect(fd.Body, func(nn ast.Node) bool {
+			as, ok := nn.(*ast.AssignStmt)
+			if !ok || len(as.Lhs) != len(as.Rhs) {
+				return true
+			}
+			for i, l := range as.Lhs {
+				se, ok := ast.Unparen(l).(*ast.SelectorExpr)
+				if !ok {
+					continue
+				}
+				k, ok := fieldOf(info, se)
+				if !ok {
+					continue
+				}
+				tv, isConst := info.Types[as.Rhs[i]]
+				zero := isConst && (tv.IsNil() || (tv.Value != nil && (tv.Value.ExactString() == "0" || tv.Value.ExactString() == `""` || tv.Value.ExactString() == "false")))
+				if !zero {
+					continue
+				}
+				m++
+				wire := false
+				for _, f := range wireFields[k.typ] {
+					if f == k.field {
+						wire = true
+					}
+				}
+				c.Check(!wire, rule8, fmt.Sprintf("%s/%s.%s cleared#%d", c.FuncName(fd), k.typ, k.field, m), as.Pos(), "not a wire-relevant field",
+					fmt.Sprintf("%s.%s is wire relevant (rule A2) and is cleared before the definition is listed in the schema: two models that differ in it get the same schema", k.typ, k.field))
+			}
+			return true
+		})
+	}
+	if m == 0 {
+		c.Undecided(rule8, "GetProtocolSchema/cleared fields", gps.Pos(), "no field is cleared (expected at least ComputedFields)")
+	}
+}
+
+// RD1 (C04/C09): the result of a function that only computes is used. A function of the module that returns a value and
+// has no effect of its own — its body stores through no parameter, receiver or package variable, sends on no channel,
+// starts nothing, and calls only functions of the same kind or a small set of known pure library functions — exists for
+// its result: a call statement that drops the result does nothing. (`withoutComputedFields(t)` returns a cleaned
+// copy; calling it and going on with `t` keeps the computed fields in the schema.)
+func ruleResultsOfPureFunctionsUsed(c *core.Ctx) {
+	const rule = "RD1"
+	c.Rule(rule, "no call statement discards the result of a module function that has results (none of them an error) and no effect of its own", 1)
+	pure := map[*types.Func]int{} // 1 = pure, 2 = not pure, 3 = in progress
+	pureLib := map[string]bool{"fmt.Sprintf": true, "fmt.Sprint": true, "strings.Join": true, "strings.ToLower": true, "strings.ToUpper": true, "strings.HasPrefix": true, "strings.HasSuffix": true,
+		"strings.Contains": true, "strings.TrimSpace": true, "strings.Split": true, "strings.ReplaceAll": true, "strings.TrimPrefix": true, "strings.TrimSuffix": true, "strings.Repeat": true,
+		"strconv.Itoa": true, "strconv.Quote": true, "path.Join": true, "path/filepath.Join": true, "errors.New": true, "fmt.Errorf": true}
+	var isPure func(f *types.Func, depth int) bool
+	isPure = func(f *types.Func, depth int) bool {
+		f = f.Origin()
+		switch pure[f] {
+		case 1:
+			return true
+		case 2, 3:
+			return false
+		}
+		if !core.InModule(f) {
+			return pureLib[core.FullName(f)]
+		}
+		d := c.Decl(f)
+		if d == nil || d.Body == nil || depth > 4 {
+			return false
+		}
+		pure[f] = 3
+		p := c.DeclPkg(d)
+		info := p.TypesInfo
+		ok := true
+		local := func(e ast.Expr) bool {
+			// the root of an assigned expression is a variable declared inside the function (not a parameter, receiver, global)
+			for {
+				switch x := ast.Unparen(e).(type) {
+				case *ast.SelectorExpr:
+					e = x.X
+					continue
+				case *ast.IndexExpr:
+					e = x.X
+					continue
+				case *ast.StarExpr:
+					e = x.X
+					continue
+				case *ast.Ident:
+					if x.Name == "_" {
+						return true
+					}
+					o := info.ObjectOf(x)
+					v, isVar := o.(*types.Var)
+					if !isVar || v.Pkg() == nil || v.Parent() == v.Pkg().Scope() {
+						return false
+					}
+					// a parameter or receiver?
+					if d.Recv != nil {
+						for _, fl := range d.Recv.List {
+							for _, nm := range fl.Names {
+								if info.Defs[nm] == o {
+									return false
+								}
+							}
+						}
+					}
+					for _, fl := range d.Type.Params.List {
+						for _, nm := range fl.Names {
+							if info.Defs[nm] == o {
+								// assigning to the parameter variable itself is local; storing through it is not
+								return ast.Unparen(e) == ast.Expr(x) && false
+							}
+						}
+					}
+					return true
+				}
+				return false
+			}
+		}
+		ast.Inspect(d.Body, func(nn ast.Node) bool {
+			if !ok {
+				return false
+			}
+			switch x := nn.(type) {
+			case *ast.AssignStmt:
+				for _, l := range x.Lhs {
+					if id, isId := ast.Unparen(l).(*ast.Ident); isId {
+						// plain variable: fine unless it is a package variable
+						if v, isVar := info.ObjectOf(id).(*types.Var); isVar && v.Pkg() != nil && v.Parent() == v.Pkg().Scope() {
+							ok = false
+						}
+						continue
+					}
+					if !local(l) {
+						ok = false
+					}
+				}
+			case *ast.IncDecStmt:
+				if !local(x.X) {
+					if _, isId := ast.Unparen(x.X).(*ast.Ident); !isId {
+						ok = false
+					}
+				}
+			case *ast.SendStmt, *ast.GoStmt, *ast.DeferStmt:
+				ok = false
+			case *ast.CallExpr:
+				if id, isId := ast.Unparen(x.Fun).(*ast.Ident); isId {
+					if _, isBuiltin := info.Uses[id].(*types.Builtin); isBuiltin {
+						if id.Name == "panic" || id.Name == "delete" || id.Name == "close" {
+							ok = false
+						}
+						return true
+					}
+					if _, isType := info.Uses[id].(*types.TypeName); isType {
+						return true
+					}
+				}
+				if tv, has := info.Types[x.Fun]; has && tv.IsType() {
+					return true // a conversion
+				}
+				g := core.Callee(info, x)
+				if g == nil || !isPure(g, depth+1) {
+					ok = false
+				}
+			}
+			return ok
+		})
+		if ok {
+			pure[f] = 1
+		} else {
+			pure[f] = 2
+		}
+		return ok
+	}
+	n, stmts := 0, 0
+	defer func() {
+		if stmts >= 500 {
+			c.OK(rule, "anchor/call statements scanned", 0, fmt.Sprintf("%d call statements of the module scanned", stmts))
+		} else {
+			c.Undecided(rule, "anchor/call statements scanned", 0, fmt.Sprintf("only %d call statements found", stmts))
+		}
+	}()
+	for _, d := range c.AllDecls() {
+		p := c.DeclPkg(d)
+		if p == nil || d.Body == nil || c.IsTestFile(d.Pos()) || !strings.HasPrefix(p.PkgPath, core.Mod) {
+			continue
+		}
+		info := p.TypesInfo
+		ast.Inspect(d.Body, func(nn ast.Node) bool {
+			es, ok := nn.(*ast.ExprStmt)
+			if !ok {
+				return true
+			}
+			ce, ok := es.X.(*ast.CallExpr)
+			if !ok {
+				return true
+			}
+			stmts++
+			f := core.Callee(info, ce)
+			if f == nil || !core.InModule(f) {
+				return true
+			}
+			sig := f.Type().(*types.Signature)
+			if sig.Results().Len() == 0 {
+				return true
+			}
+			for i := 0; i < sig.Results().Len(); i++ {
+				if sig.Results().At(i).Type().String() == "error" {
+					return true // error discipline is rule E1/E2
+				}
+			}
+			n++
+			key := fmt.Sprintf("%s/%s#%d", c.FuncName(d), f.Name(), n)
+			if isPure(f, 0) {
+				c.Bad(rule, key, ce.Pos(), fmt.Sprintf("`%s` only computes its result (it stores nowhere and calls nothing that does), and the call drops that result: the statement has no effect — the value it was meant to replace is used unchanged", f.Name()))
+			} else {
+				c.OK(rule, key, ce.Pos(), "the callee has effects of its own")
+			}
+			return true
+		})
+	}
+}
+
+// LP1 (C06): a search loop can go on to the second element. A `for … range` over a list whose body leaves the loop on
+// every path (return / break in every branch, including a default) looks at the first element only. In the evolution
+// analyser "is the old type one of the cases of the new union" is such a search: with a `default: return incompatible`
+// inside the loop only a match in first position is found and `T -> [U, T]` — a documented compatible change — is
+// rejected. Loops that are meant to take the first element do so without a conditional (`for _, x := range xs { return x }`).
+func ruleSearchLoopsIterate(c *core.Ctx) {
+	const rule = "LP1"
+	c.Rule(rule, "pkg/dsl: no `for range` loop over a slice has a body with a condition in it and yet leaves the loop (return/break/panic) on every path of the first iteration", 100)
+	p := c.Pkg("pkg/dsl")
+	if p == nil {
+		c.Undecided(rule, "anchor/pkg/dsl", 0, "package not loaded")
+		return
+	}
+	info := p.TypesInfo
+	// how a statement list can end: may fall through to the next iteration / always leaves
+	var fallsThrough func(list []ast.Stmt) bool
+	fallsThrough = func(list []ast.Stmt) bool {
+		for _, s := range list {
+			switch x := s.(type) {
+			case *ast.ReturnStmt:
+				return false
+			case *ast.BranchStmt:
+				if x.Tok == token.BREAK || x.Tok == token.GOTO {
+					return false
+				}
+				if x.Tok == token.CONTINUE {
+					return true
+				}
+			case *ast.ExprStmt:
+				if ce, ok := x.X.(*ast.CallExpr); ok && core.NoReturn(info, ce) {
+					return false
+				}
+			case *ast.BlockStmt:
+				if !fallsThrough(x.List) {
+					return false
+				}
+			case *ast.IfStmt:
+				thenFalls := fallsThrough(x.Body.List)
+				elseFalls := true
+				switch e := x.Else.(type) {
+				case *ast.BlockStmt:
+					elseFalls = fallsThrough(e.List)
+				case *ast.IfStmt:
+					elseFalls = fallsThrough([]ast.Stmt{e})
+				}
+				if !thenFalls && !elseFalls {
+					return false
+				}
+			case *ast.SwitchStmt, *ast.TypeSwitchStmt:
+				var body *ast.BlockStmt
+				if sw, ok := x.(*ast.SwitchStmt); ok {
+					body = sw.Body
+				} else {
+					body = x.(*ast.TypeSwitchStmt).Body
+				}
+				hasDefault, anyFalls := false, false
+				for _, cl := range body.List {
+					cc := cl.(*ast.CaseClause)
+					if cc.List == nil {
+						hasDefault = true
+					}
+					// a `break` inside a switch clause leaves the switch, not the loop
+					falls := true
+					for _, st := range cc.Body {
+						if r, ok := st.(*ast.ReturnStmt); ok && r != nil {
+							falls = false
+						}
+						if es, ok := st.(*ast.ExprStmt); ok {
+							if ce, ok := es.X.(*ast.CallExpr); ok && core.NoReturn(info, ce) {
+								falls = false
+							}
+						}
+					}
+					if falls {
+						anyFalls = true
+					}
+				}
+				if hasDefault && !anyFalls {
+					return false
+				}
+			}
+		}
+		return true
+	}
+	for _, d := range c.AllDecls() {
+		if c.DeclPkg(d) != p || d.Body == nil || c.IsTestFile(d.Pos()) {
+			continue
+		}
+		n := 0
+		ast.Inspect(d.Body, func(nn ast.Node) bool {
+			rs, ok := nn.(*ast.RangeStmt)
+			if !ok {
+				return true
+			}
+			if _, isSlice := derefType(info.TypeOf(rs.X)).Underlying().(*types.Slice); !isSlice {
+				return true
+			}
+			n++
+			key := fmt.Sprintf("%s/range %s#%d", c.FuncName(d), types.ExprString(rs.X), n)
+			conditional := false
+			for _, s := range rs.Body.List {
+				switch s.(type) {
+				case *ast.IfStmt, *ast.SwitchStmt, *ast.TypeSwitchStmt:
+					conditional = true
+				}
+			}
+			c.Check(!conditional || fallsThrough(rs.Body.List), rule, key, rs.Pos(), "the loop can reach a second element",
+				"every path through the body of this loop leaves it: although the body tests each element, only the first element of "+types.ExprString(rs.X)+" is ever looked at")
+			return true
+		})
+	}
+}
+
+// Q8 (C13): an expression may be written as any plain YAML scalar. yaml.v3 resolves an unquoted scalar to !!str, !!int,
+// !!float or !!bool before UnmarshalExpression sees it; the computed field `gain: 2.5` and `gain: "2.5"` are the same
+// expression text. The tag switch of UnmarshalExpression therefore parses all four scalar tags the same way.
+func ruleExpressionScalarTags(c *core.Ctx) {
+	const rule = "Q8"
+	c.Rule(rule, "dsl.UnmarshalExpression: the switch on the node tag has the cases !!str, !!int, !!float and !!bool, each handing value.Value to ParseExpression", 4)
+	p := c.Pkg("pkg/dsl")
+	_, d, _ := c.Func("pkg/dsl", "UnmarshalExpression")
+	if p == nil || d == nil {
+		c.Undecided(rule, "anchor/pkg/dsl.UnmarshalExpression", 0, "anchor not found")
+		return
+	}
+	info := p.TypesInfo
+	parses := map[string]bool{}
+	ast.Inspect(d.Body, func(nn ast.Node) bool {
+		sw, ok := nn.(*ast.SwitchStmt)
+		if !ok || sw.Tag == nil || !strings.HasSuffix(types.ExprString(sw.Tag), ".Tag") {
+			return true
+		}
+		for _, cl := range sw.Body.List {
+			cc := cl.(*ast.CaseClause)
+			callsParse := false
+			for _, s := range cc.Body {
+				ast.Inspect(s, func(m ast.Node) bool {
+					if ce, ok := m.(*ast.CallExpr); ok {
+						if f := core.Callee(info, ce); f != nil && f.Name() == "ParseExpression" {
+							callsParse = true
+						}
+					}
+					return true
+				})
+			}
+			for _, e := range cc.List {
+				if tv, ok := info.Types[e]; ok && tv.Value != nil && tv.Value.Kind() == constant.String && callsParse {
+					parses[constant.StringVal(tv.Value)] = true
+				}
+			}
+		}
+		return true
+	})
+	for _, tag := range []string{"!!str", "!!int", "!!float", "!!bool"} {
+		c.Check(parses[tag], rule, "UnmarshalExpression/"+tag, d.Pos(), "parsed as an expression",
+			"a plain scalar that YAML resolves to "+tag+" is not parsed as an expression: `x: 2.5` is rejected while the quoted spelling of the same expression is accepted")
+	}
+}
+
+// NR1 (C16): whether a step must be present depends on that step alone. The C++ NDJSON reader calls
+// ReadProtocolValue(…, required, …): `required` is false only for stream steps, whose end is signalled by the absence of
+// further lines. The generator prints it from `!step.IsStream()`; a value carried from one step of the loop to the next
+// (a flag that stays false after the first stream) makes every later scalar step optional — a stream cut off before
+// them reads as complete, with default values.
+// S4 (C16): the generated Python context managers never swallow an exception: no emitted `__exit__` returns True.
+func ruleRequiredPerStepAndExitPropagates(c *core.Ctx) {
+	const ruleN, ruleS = "NR1", "S4"
+	c.Rule(ruleN, "cpp/ndjson: the `required` argument emitted for ReadProtocolValue is `!step.IsStream()` of the step being printed", 1)
+	c.Rule(ruleS, "python/protocols: no emission inside an emitted `__exit__` returns a true value", 2)
+	n := 0
+	for _, fn := range []string{"writeProtocolMethods", "WriteNdJson"} {
+		rows, d := flatRows(c, "internal/cpp/ndjson", fn)
+		if d == nil {
+			continue
+		}
+		for _, r := range rows {
+			if r.Kind != "emit" || !strings.Contains(r.Tmpl, "ReadProtocolValue(") || !strings.Contains(r.Tmpl, "%t") {
+				continue
+			}
+			// the argument that fills %t
+			verbs := regexp.MustCompile(`%[a-zA-Z]`).FindAllString(r.Tmpl, -1)
+			idx := -1
+			for i, v := range verbs {
+				if v == "%t" {
+					idx = i
+				}
+			}
+			if idx < 0 || idx >= len(r.Args) {
+				continue
+			}
+			n++
+			a := strings.ReplaceAll(strings.ReplaceAll(r.Args[idx], " ", ""), "dsl.", "")
+			ok := a == "!ProtocolStep.IsStream()" || a == "!(ProtocolStep.IsStream())"
+			c.Check(ok, ruleN, fmt.Sprintf("%s/required#%d", fn, n), r.Pos, "`!step.IsStream()`",
+				"the `required` argument is `"+r.Args[idx]+"`, not a function of the step being printed: a step after a stream can become optional, and a truncated file then reads as complete with fabricated default values")
+		}
+		if n > 0 {
+			break
+		}
+	}
+	if n == 0 {
+		c.Undecided(ruleN, "anchor/ReadProtocolValue", 0, "the emission of ReadProtocolValue was not found in cpp/ndjson")
+	}
+	// S4
+	m := 0
+	defRe := regexp.MustCompile(`^\s*def\s+([\w%]+)\s*\(`)
+	rows, d := flatRows(c, "internal/python/protocols", "WriteProtocols")
+	if d == nil {
+		c.Undecided(ruleS, "anchor/python/protocols.WriteProtocols", 0, "anchor not found")
+		return
+	}
+	cur := ""
+	for _, r := range rows {
+		if r.Kind != "emit" {
+			continue
+		}
+		for _, line := range strings.Split(r.Tmpl, "\n") {
+			if mm := defRe.FindStringSubmatch(line); mm != nil {
+				cur = mm[1]
+				if cur == "__exit__" {
+					m++
+					c.OK(ruleS, fmt.Sprintf("__exit__#%d/found", m), r.Pos, "emitted __exit__")
+				}
+				continue
+			}
+			if cur == "__exit__" && regexp.MustCompile(`^\s*return\s+(True|1|not\s+False)\b`).MatchString(line) {
+				c.Bad(ruleS, fmt.Sprintf("__exit__#%d/return True", m), r.Pos, "the emitted __exit__ returns True: the exception that ended the `with` block (EOFError on a truncated stream) is suppressed and the block completes normally")
+			}
+		}
+	}
+	if m == 0 {
+		c.Undecided(ruleS, "anchor/__exit__", d.Pos(), "no emitted __exit__ found")
+	}
+}
+
+// UI2 (C14): the case index of a union goes on the wire unsigned. Python and MATLAB write the index as one unsigned
+// byte / varint; the C++ generator prints `WriteInteger(stream, value.index())` — size_t, the unsigned overload — and
+// reads into `size_t index`. An index carried in a signed type selects the zig-zag overload: index 1 becomes 0x02 and the
+// other languages read case 2. In the emitted WriteUnion / ReadUnion the index argument of WriteInteger / ReadInteger is
+// `value.index()` itself or a variable whose emitted declaration has an unsigned type.
+func ruleUnionIndexUnsignedOnTheWire(c *core.Ctx) {
+	const rule = "UI2"
+	c.Rule(rule, "cpp/binary: inside the emitted WriteUnion/ReadUnion the argument of the first WriteInteger/ReadInteger is `value.index()` or a variable declared (in the emitted text) with an unsigned type", 2)
+	p := c.Pkg("internal/cpp/binary")
+	if p == nil {
+		c.Undecided(rule, "anchor/internal/cpp/binary", 0, "package not loaded")
+		return
+	}
+	info := p.TypesInfo
+	declRe := regexp.MustCompile(`^\s*(?:const\s+)?((?:unsigned\s+)?[\w:]+(?:\s+const)?)\s+(\w+)\s*(?:=\s*(.*?))?;`)
+	callRe := regexp.MustCompile(`(Write|Read)Integer\(\s*stream\s*,\s*(.*)\)\s*;`)
+	unsignedType := func(t, init string) bool {
+		t = strings.TrimSpace(strings.TrimSuffix(strings.TrimSpace(t), "const"))
+		switch t {
+		case "size_t", "std::size_t", "uint8_t", "uint16_t", "uint32_t", "uint64_t", "unsigned", "unsigned int", "unsigned long", "yardl::Size":
+			return true
+		case "auto":
+			return strings.Contains(init, ".index()") && !regexp.MustCompile(`static_cast<\s*(int|long|int\d+_t|std::int\d+_t|ssize_t)\s*>`).MatchString(init)
+		}
+		return false
+	}
+	n := 0
+	for _, d := range c.AllDecls() {
+		if c.DeclPkg(d) != p || d.Body == nil {
+			continue
+		}
+		var lines []struct {
+			t   string
+			pos token.Pos
+		}
+		ast.Inspect(d.Body, func(nn ast.Node) bool {
+			if ce, ok := nn.(*ast.CallExpr); ok {
+				if t, ok := emissionTemplate(info, ce); ok && t != "" {
+					for _, l := range strings.Split(t, "\n") {
+						if strings.TrimSpace(l) != "" {
+							lines = append(lines, struct {
+								t   string
+								pos token.Pos
+							}{l, ce.Pos()})
+						}
+					}
+				}
+			}
+			return true
+		})
+		inUnion := ""
+		decls := map[string][2]string{}
+		checked := false
+		for _, l := range lines {
+			tl := strings.TrimSpace(l.t)
+			if m := regexp.MustCompile(`^void\s+(Write|Read)Union\(`).FindStringSubmatch(tl); m != nil {
+				inUnion, decls, checked = m[1], map[string][2]string{}, false
+				continue
+			}
+			if inUnion == "" || checked {
+				continue
+			}
+			if m := declRe.FindStringSubmatch(tl); m != nil && !strings.Contains(tl, "(stream") {
+				decls[m[2]] = [2]string{m[1], m[3]}
+			}
+			if m := callRe.FindStringSubmatch(tl); m != nil && m[1] == inUnion {
+				checked = true
+				n++
+				arg := strings.TrimSpace(m[2])
+				key := fmt.Sprintf("%s/%sUnion index", c.FuncName(d), inUnion)
+				ok := false
+				why := "`" + arg + "`"
+				if regexp.MustCompile(`^\w+\.index\(\)$`).MatchString(arg) {
+					ok = true
+				} else if dt, has := decls[arg]; has {
+					ok = unsignedType(dt[0], dt[1])
+					why = "`" + arg + "`, declared as `" + dt[0] + "`"
+				}
+				c.Check(ok, rule, key, l.pos, "the index travels as an unsigned integer: "+why,
+					"the union index handed to "+m[1]+"Integer is "+why+", not an unsigned value: the signed overload zig-zag encodes it and the bytes no longer match what Python and MATLAB write and expect")
+			}
+		}
+	}
+	if n == 0 {
+		c.Undecided(rule, "anchor/WriteUnion", 0, "the emitted WriteUnion / ReadUnion were not found in cpp/binary")
+	}
+}
